@@ -7,7 +7,7 @@ from fractions import Fraction
 from ..pm import AnalysisError, norm_src, func_params
 from ..flow import CFG, ENTRY, attr_chain
 from ..astutil import call_name
-from ..match import resolve_expr, canon_equal
+from ..match import equal_resolved, resolve_expr, canon_equal
 from ..e6_algebra import Poly, Rat, to_rat, NotScalarArithmetic
 from ..e3_axes import Interp, Arr, Num, Ax, Tup, is_top
 from ..scenarios import nonusage, dedup_events
@@ -322,6 +322,9 @@ def _parents_of(n):
         n = getattr(n, "_parent", None)
 
 
+_HCFG = {}
+
+
 def hier(pm, ctx, u):
     _returns_inputs(ctx, u, "mlp_prox_grad", "every return yields computed (beta*, theta*)")
     _returns_inputs(ctx, u, "group_mlp_prox_grad", "every return yields the assembled results of the elementary operator")
@@ -345,6 +348,21 @@ def hier(pm, ctx, u):
         if any(canon_equal(val, t) for t in forms):
             ctx.ok("C05-c", site, norm_src(val)[:90])
             return defs[name]
+        try:
+            from ..match import resolve_expr, cfg_node
+            cfg_ = _HCFG.setdefault(id(f), CFG(f))
+            st_ = cfg_node(cfg_, defs[name])
+            rv = resolve_expr(cfg_, st_, val)
+            if any(canon_equal(rv, resolve_expr(cfg_, st_, ast.parse(t, mode="eval").body)) for t in forms):
+                ctx.ok("C05-c", site, norm_src(val)[:90] + " (through temporaries)")
+                return defs[name]
+        except Exception:
+            pass
+        from ..match import missing_names
+        miss = missing_names(f, forms)
+        if miss:
+            ctx.unrecognised("C05-c", site, f"the expected form is written with the temporaries {sorted(miss)}, which this function does not define")
+            return None
         ctx.violation("C05-c", u.relpath, qn, norm_src(defs[name])[:200], f"{why} (expected {name} = {forms[0]})", line=defs[name].lineno, site=site)
         return None
     expect("u_abs_sorted", [f"np.sort(np.abs({uu}), axis=1)[:, ::-1]"], "the hidden weights are not sorted by decreasing magnitude along the hidden axis")
@@ -374,7 +392,8 @@ def hier(pm, ctx, u):
     sdef = defs.get("s")
     if sdef is None:
         ctx.unrecognised("C05-c", f"{qn}: s", "no local named s")
-    elif norm_src(sdef.value).startswith("np.arange(k + 1") and ".reshape((1, -1))" in norm_src(sdef.value):
+    elif (norm_src(sdef.value).startswith("np.arange(k + 1") and ".reshape((1, -1))" in norm_src(sdef.value)) or equal_resolved(
+            sdef, sdef.value, ["np.arange(k + 1.0).reshape((1, -1))", "np.arange(k + 1).reshape((1, -1))"]):
         ctx.ok("C05-c", f"{qn}: s", "s = 0..h along the breakpoint axis")
     else:
         ctx.violation("C05-c", u.relpath, qn, norm_src(sdef), "s does not enumerate 0..h breakpoints", line=sdef.lineno, site=f"{qn}: s")
